@@ -755,6 +755,10 @@ class Exec(ExprMixin, CallMixin):
                 elif isinstance(n, ast.Subscript) and isinstance(n.ctx, ast.Load):
                     # defaultdict read-insert
                     r, a = root_attr(n)
+                    if a is None and r is not None:
+                        lv = self.ctx.locals.get(r)
+                        if lv is not None and isinstance(lv.ty, TDict) and lv.ty.default:
+                            names.add(r)
                     if a is not None:
                         for cls, cd in self.reg.classes.items():
                             fty = cd.fields.get(a)
@@ -766,8 +770,24 @@ class Exec(ExprMixin, CallMixin):
     # contract application
     def bind_args(self, ct: Contract, fi: FuncInfo | None, self_sv, node: ast.Call) -> dict[str, SV]:
         pnames = list(ct.params.keys())
-        args = self.args_of(node)
-        kws = self.kw_of(node)
+        va = ct.ghost.get("varargs")
+        if va:
+            # f(*xs) or f(a, b, ...) packed into the list parameter `va`
+            if len(node.args) == 1 and isinstance(node.args[0], ast.Starred):
+                packed = self.iter_list(self.eval(node.args[0].value), node)
+            else:
+                packed = SV(_EMPTY_LIST, None, ("local", "__pack"))
+                self.ctx.locals["__pack"] = SV(_EMPTY_LIST, None)
+                for a in node.args:
+                    v = self.eval(a)
+                    cur = self.materialize(self.lookup("__pack"), v.ty, node)
+                    self.ctx.locals["__pack"] = self.list_append(cur, v)
+                packed = self.ctx.locals.pop("__pack")
+            args = [packed]
+            kws = self.kw_of(node)
+        else:
+            args = self.args_of(node)
+            kws = self.kw_of(node)
         bound: dict[str, SV] = {}
         start = 0
         if "self" in ct.params:
